@@ -77,7 +77,7 @@ def judge(profile, o):
 def run(tier, seed, replay=None):
     assert_repo_import()
     chk = Check("C19", tier, seed)
-    model_ok = chk.proof_stage(["Agg/Percent.vo", "Agg/PercentFloat.vo", "Agg/PercentFloatProofs.vo"])
+    model_ok = chk.proof_stage(["Agg/Percent.vo", "Agg/PercentFloat.vo", "Agg/PercentFloatProofs.vo", "Agg/FloatBridge.vo"])
     bound = 16 if tier == "quick" else 60
     profiles = [(a, b, c, d) for a in range(bound + 1) for b in range(bound + 1 - a)
                 for c in range(bound + 1 - a - b) for d in range(bound + 1 - a - b - c)]
